@@ -20,5 +20,18 @@ check("C16", "exploration",
       "confirmed with the engine's own hash, used as variable/function/parameter/global/attribute names.",
       "Trusted: glibc strto*, python int/bytes semantics, my transcription of [lex.icon]/[lex.ccon]. LP64 only.",
       "model-based oracle over generated literals on the ASan/UBSan-instrumented engine", "DESIGN.md section 5 C16")
+check("C12", "exploration",
+      "2.5k (quick) / 100k (thorough) seeded operation sequences (<=40 / <=200 statements) over Vector, string, Map, Pair and range views with "
+      "hostile indices are executed statement by statement on the ASan+libstdc++-assertions engine; after every statement the result "
+      "(value or must-throw) and a dump of the container are compared with a python list/dict/str model. Modify-while-viewing witnesses are "
+      "replayed as known findings (the property's own carve-out).",
+      "Trusted: python list/dict/str as std:: model, ASan red zones + _GLIBCXX_ASSERTIONS for accesses inside capacity. List is not part of the default stdlib and is not covered.",
+      "step-by-step model oracle over generated operation histories under ASan", "DESIGN.md section 5 C12")
+check("C17", "exploration",
+      "Every prelude algorithm is called on every int vector of length 0..3 (quick, 0..4 thorough) over {-3..3} (enumerated completely) plus sampled/"
+      "random longer vectors, strings and maps, as '[result, callback log, input afterwards]', and compared with a python functional specification "
+      "(result, exact callback trace incl. short-circuit, input unchanged). ~10^5 calls per quick run.",
+      "Trusted: my python specification of each function (argument order of foldl/reduce taken from the implementation's own use in sum/product).",
+      "model-based oracle + callback trace specification over enumerated inputs under ASan", "DESIGN.md section 5 C17")
 for _p in ["C%02d" % i for i in range(2, 21) if "C%02d" % i not in CHECKS]:
     NA[_p] = "check not implemented yet in this revision (work in progress, see DESIGN.md); nothing is claimed"
